@@ -245,6 +245,8 @@ def _c11(rec, stages, feature):
     if rec.get("kind") != "layout_stage_changed_tree" or d.get("stage") not in stages or not d.get("string_constants_only"):
         return False
     consts = d.get("constants") or []
+    if stages[0] in ("rmspace.format_str", "expandtabs", "fixes.fix_too_many_blank_lines") and d.get("explained_by_reference") is not True:
+        return False  # the stage did something else than the text operation the finding describes
     return bool(consts) and all(c.get(feature) for c in consts)
 
 
